@@ -1,5 +1,5 @@
 import PGA.Drv.Util
-import PGA.Spec.SI
+import PGA.Spec.SIExt
 namespace PGA.Drv.C10
 open Lean PGA.Drv PGA.Units
 
@@ -68,6 +68,19 @@ def refCfg : Cfg :=
     prefixes := PGA.SI.prefixes.map fun pk => (pk.1, (10 : Rat) ^ pk.2),
     db := PGA.SI.units.map fun r => (r.name, ⟨.exact r.value, r.dim⟩) }
 
+/-- a verdict of `PGA/Spec/SIExt.lean` on a unit the reference does not know -/
+def jverdict (x : List Char × PGA.SI.Defn × PGA.SI.Verdict) : Json :=
+  let dfn : List (String × Json) := match x.2.1 with
+    | .text s => [("definition", jname s)]
+    | .base m p => [("definition", Json.mkObj [("multiple", jrat m), ("primitive", jname p)])]
+  let v : List (String × Json) := match x.2.2 with
+    | .accepted r => [("verdict", Json.str "accepted"), ("value", jrat r.value), ("dim", jdim r.dim), ("tol", jrat r.tol)]
+    | .ambiguous s => [("verdict", Json.str "ambiguous"), ("spelling", jname s)]
+    | .badDefinition e => [("verdict", Json.str "bad_definition"), ("outcome", jerr e)]
+    | .unsupported => [("verdict", Json.str "unsupported")]
+    | .notAWord => [("verdict", Json.str "not_a_word")]
+  Json.mkObj ([("name", jname x.1)] ++ dfn ++ v)
+
 def handle (op : String) (j : Json) : Option (Except String Json) :=
   match op with
   | "c10.eval" => some do
@@ -78,6 +91,14 @@ def handle (op : String) (j : Json) : Option (Except String Json) :=
       -- checks that must not inherit a changed unit definition
       let t ← str j "text"
       pure (jres (evalStr refCfg t.toList))
+  | "c10.eval_ext" => some do
+      -- the evaluator over the SI reference extended by the new units of the working tree that are consistent with
+      -- their definitions (PGA/Spec/SIExt.lean): what a text means when it mentions a unit the reference does not know
+      let t ← str j "text"
+      pure (jres (evalStr PGA.SI.extCfg t.toList))
+  | "c10.ext_table" => some do
+      -- the verdicts on the live units the reference does not know, in registration order
+      pure (Json.mkObj [("new", Json.arr (PGA.SI.liveVerdicts.map jverdict).toArray)])
   | "c10.tokens" => some do
       let t ← str j "text"
       pure (Json.arr ((lex t.toList).map jtok).toArray)
